@@ -6,17 +6,19 @@ From Verif Require Import Common.Base Common.Tactics JsScope.Model JsScope.Spec 
 (* ---- a_find_reuse -------------------------------------------------------------------------------------- *)
 Lemma a_find_reuse_some x l i j : a_find_reuse x l i = Some j -> (i <= j)%nat /\ nth_error l (j - i) = Some (UPend x).
 Proof.
-  revert i. induction l as [|[y|y fs] t IH]; intros i H; cbn in H; [discriminate| |].
+  revert i. induction l as [|[y|y fs|y] t IH]; intros i H; cbn in H; [discriminate| | |].
   - destruct (Z.eqb_spec y x) as [->|Hne].
     + inversion H; subst. split; [lia|]. replace (j - j)%nat with O by lia. reflexivity.
     + destruct (IH _ H) as [H1 H2]. split; [lia|]. replace (j - i)%nat with (S (j - S i)) by lia. exact H2.
+  - destruct (IH _ H) as [H1 H2]. split; [lia|]. replace (j - i)%nat with (S (j - S i)) by lia. exact H2.
   - destruct (IH _ H) as [H1 H2]. split; [lia|]. replace (j - i)%nat with (S (j - S i)) by lia. exact H2.
 Qed.
 
 Lemma a_find_reuse_none x l i : a_find_reuse x l i = None -> ~ In (UPend x) l.
 Proof.
-  revert i. induction l as [|[y|y fs] t IH]; intros i H; cbn in H; [intros []| |].
+  revert i. induction l as [|[y|y fs|y] t IH]; intros i H; cbn in H; [intros []| | |].
   - destruct (Z.eqb_spec y x) as [->|Hne]; [discriminate|]. intros [E|Hin]; [inversion E; contradiction|eapply IH; eassumption].
+  - intros [E|Hin]; [discriminate|eapply IH; eassumption].
   - intros [E|Hin]; [discriminate|eapply IH; eassumption].
 Qed.
 
@@ -24,14 +26,21 @@ Lemma pend_names_remove_at l i x :
   nth_error l i = Some (UPend x) -> NoDup (pend_names l) ->
   NoDup (pend_names (remove_at l i)) /\ ~ In x (pend_names (remove_at l i)).
 Proof.
-  revert i. induction l as [|[y|y fs] t IH]; intros i Hn Hnd; [destruct i; discriminate| |].
+  revert i. induction l as [|[y|y fs|y] t IH]; intros i Hn Hnd; [destruct i; discriminate| | |].
+  2:{ destruct i as [|i]; cbn in *; [discriminate|]. apply IH; assumption. }
+  2:{ destruct i as [|i]; cbn in *; [discriminate|]. apply IH; assumption. }
   - destruct i as [|i]; cbn in *.
     + inversion Hn; subst. inversion Hnd; subst. split; assumption.
     + inversion Hnd as [|? ? Hnot Hnd']; subst. destruct (IH i Hn Hnd') as [H1 H2]. split.
       * constructor; [|exact H1]. intros Hin. apply Hnot. apply in_pend_names in Hin. apply in_pend_names.
         eapply remove_at_in. exact Hin.
       * intros [->|Hin]; [|contradiction]. apply Hnot. apply in_pend_names. eapply nth_error_In. exact Hn.
-  - destruct i as [|i]; cbn in *; [discriminate|]. apply IH; assumption.
+Qed.
+
+Lemma arg_names_remove_at l i x : nth_error l i = Some (UPend x) -> arg_names (remove_at l i) = arg_names l.
+Proof.
+  revert i. induction l as [|[y|y fs|y] t IH]; intros i Hn; [destruct i; discriminate| | |]; destruct i as [|i]; cbn in *;
+    try discriminate; try reflexivity; try (apply IH; exact Hn). f_equal. apply IH. exact Hn.
 Qed.
 
 Lemma firstn_remove_at_ge {A} (l : list A) n k : (n <= k)%nat -> firstn n (remove_at l k) = firstn n l.
@@ -149,7 +158,7 @@ Lemma decl_frame_ok T prT below decl x :
   (decl = ArgumentDecl -> ~ In (UPend x) (fund T)) ->
   frame_ok (decl_frame T decl x) prT below.
 Proof.
-  intros [K1 K2 K3 K4 K5 K6 K7 K8 K9] Hp Hk Harg.
+  intros [K1 K2 K3 K4 K5 K6 K7 K8 K9 K10 K11 K12] Hp Hk Harg.
   unfold decl_frame. destruct (a_find_decl T x) as [[y kk]|] eqn:E; [constructor; assumption|].
   pose proof (a_find_decl_none _ _ E) as Hnot. destruct K7 as [K7a K7b].
   assert (Hcases :
@@ -160,7 +169,7 @@ Proof.
     destruct (a_find_reuse x (skipn (fnarg T) (fund T)) 0) as [i|] eqn:Er.
     - left. exists i. split; [reflexivity|]. apply a_find_reuse_skipn. exact Er.
     - right. split; [reflexivity|]. intros Hin. destruct (in_firstn_skipn _ (fnarg T) _ Hin) as [H|H].
-      + apply (K7b x H). exact Hp.
+      + exact (K7b x H).
       + apply (a_find_reuse_none _ _ _ Er). exact H. }
   destruct Hcases as [(i & -> & Hnth)|[-> Hnone]].
   - destruct (pend_names_remove_at _ _ _ Hnth K6) as [Hnd Hnx].
@@ -179,8 +188,11 @@ Proof.
     + split.
       * pose proof (length_remove_at (fund T) (fnarg T + i) Hlt). lia.
       * rewrite firstn_remove_at_ge by lia. exact K7b.
-    + exact K8.
-    + exact K9.
+    + intros y Hy. rewrite firstn_remove_at_ge by lia. apply K8. eapply remove_at_in. exact Hy.
+    + rewrite (arg_names_remove_at _ _ _ Hnth). exact K9.
+    + exact K10.
+    + exact K11.
+    + exact K12.
   - constructor; cbn [fdecl fund fnarg fnfor fid fisfunc set_fdecl set_fund].
     + intros y k Hy. apply in_app_last in Hy. destruct Hy as [Hy|Hy]; [apply K1; exact Hy|]. inversion Hy; subst. split; assumption.
     + exact K2.
@@ -193,6 +205,9 @@ Proof.
     + split; assumption.
     + exact K8.
     + exact K9.
+    + exact K10.
+    + exact K11.
+    + exact K12.
 Qed.
 
 (* the log after the declaration still refers to unresolved entries that exist, and means the same *)
@@ -204,6 +219,21 @@ Proof.
   intros K Hp Hdrop. unfold decl_log. destruct (a_find_decl T x); [reflexivity|].
   destruct (if decl =? ArgumentDecl then None else a_find_reuse x (skipn (fnarg T) (fund T)) 0); [|reflexivity].
   apply final_relabel. cbn [final]. rewrite Hdrop. symmetry. apply lookup_head. exact Hp.
+Qed.
+
+(* the frozen uses of the parameter list are not touched by a declaration *)
+Lemma decl_log_arg T decl x log s y :
+  In (LArg s y) (decl_log T decl x log) ->
+  In (LArg s y) log /\ (In (UArg y) (fund T) -> In (UArg y) (fund (decl_frame T decl x))).
+Proof.
+  unfold decl_log, decl_frame. destruct (a_find_decl T x) as [[z k]|] eqn:E; [tauto|].
+  destruct (if decl =? ArgumentDecl then None else a_find_reuse x (skipn (fnarg T) (fund T)) 0) as [i|] eqn:Er.
+  - intros Hin. unfold relabel in Hin. apply in_map_iff in Hin. destruct Hin as (l & El & Hl).
+    destruct (label_eqb l (LPend (fid T) x)) eqn:Eq; [discriminate|]. subst l. split; [exact Hl|].
+    intros Hu. cbn [fund set_fdecl set_fund]. apply in_remove_at; [|exact Hu].
+    destruct (Z.eqb decl ArgumentDecl); [discriminate|].
+    rewrite (a_find_reuse_skipn _ _ _ _ Er). discriminate.
+  - intros Hin. split; [exact Hin|]. cbn [fund set_fdecl]. tauto.
 Qed.
 
 Lemma decl_log_pend T prT below decl x log s y :
